@@ -731,7 +731,9 @@ class AndMaybeMatcher(AdditiveBiMatcher):
         ra = self.a.skip_to(id)
         rb = False
         if self.a.is_active() and self.b.is_active():
-            rb = self.b.skip_to(id)
+            # The required matcher may have landed beyond the target; the
+            # optional matcher must be brought up to the same document
+            rb = self.b.skip_to(self.a.id())
         return ra or rb
 
     def replace(self, minquality=0):
@@ -791,7 +793,7 @@ class AndMaybeMatcher(AdditiveBiMatcher):
         return skipped
 
     def weight(self):
-        if self.a.id() == self.b.id():
+        if self.b.is_active() and self.a.id() == self.b.id():
             return self.a.weight() + self.b.weight()
         else:
             return self.a.weight()
